@@ -179,6 +179,16 @@ def compare(impl, model, channels, canon=None):
                     # or an ordinal: the two sides are in the same state up to the usual canonicalisation; go on
                     continue
             if canon and op.startswith("rmc ") and il != ml:
+                # ... with one exception: an INTERNAL panic of the library (an index with an invalid key, a failed
+                # assertion) or a crash during the removal, where the model returns or ends in a documented handler panic.
+                # No order of the cascade explains that - the unchanged code has no such panic in any order - so it
+                # confirms (round-7 change C03_W_1: stale member_of entries tear down an unrelated archetype).
+                ibad = [l for l in il if l.startswith(("panic internal", "exit "))]
+                mbad = [l for l in ml if l.startswith(("panic internal", "ub ", "assert ", "exit "))]
+                if ibad and not mbad:
+                    diffs.append((hid, i, op, "ret", ibad, [l for l in ml if channel(l) == "ret"]))
+                    found = True
+                    break
                 # `remove_component` despawns the entities that have the component in an unspecified order, and handlers of
                 # the RemoveComponent / Despawn notifications can make the outcome depend on that order (ordinals, serials,
                 # what a fetcher sees mid-cascade, how far a budgeted cascade gets). A difference that first shows in such
